@@ -152,6 +152,7 @@ type errVar struct {
 }
 
 type pst struct {
+	defs      map[types.Object]ast.Expr // locals defined once by a side-effect-free expression whose inputs were not written since
 	valErr    map[types.Object]types.Object // value variable -> error variable of the same tuple assignment
 	boolDefs  map[types.Object]ast.Expr  // local bool variables defined once by an expression
 	bufState  map[string]string          // builder name -> empty | nonempty
@@ -198,6 +199,10 @@ func (s *pst) clone() *pst {
 	for k, v := range s.valErr {
 		n.valErr[k] = v
 	}
+	n.defs = map[types.Object]ast.Expr{}
+	for k, v := range s.defs {
+		n.defs[k] = v
+	}
 	n.facts = make(map[string]bool, len(s.facts))
 	for k, v := range s.facts {
 		n.facts[k] = v
@@ -218,6 +223,16 @@ func (s *pst) clone() *pst {
 }
 
 func (s *pst) invalidate(prefixes ...string) {
+	for o, d := range s.defs {
+		txt := types.ExprString(d)
+		for _, p := range prefixes {
+			if strings.Contains(txt, p) {
+				delete(s.defs, o)
+				delete(s.boolDefs, o)
+				break
+			}
+		}
+	}
 	for k := range s.facts {
 		for _, p := range prefixes {
 			if strings.Contains(k, p) {
@@ -289,6 +304,102 @@ func isNilIdent(e ast.Expr) bool {
 }
 
 func (a *smAn) str(e ast.Expr) string { return types.ExprString(e) }
+
+// key renders a condition with single-assignment locals replaced by their (still valid) definitions, so that
+// `newScheme == "file"` after `newScheme := buffer.String()` reads `buffer.String() == "file"`.
+func (a *smAn) key(e ast.Expr, s *pst) string {
+	if s == nil || len(s.defs) == 0 {
+		return types.ExprString(e)
+	}
+	return types.ExprString(a.subst(e, s, 0))
+}
+
+func (a *smAn) subst(e ast.Expr, s *pst, depth int) ast.Expr {
+	if depth > 6 {
+		return e
+	}
+	switch x := e.(type) {
+	case *ast.Ident:
+		if d, ok := s.defs[a.obj(x)]; ok {
+			r := a.subst(d, s, depth+1)
+			switch r.(type) {
+			case *ast.BinaryExpr, *ast.UnaryExpr:
+				return &ast.ParenExpr{X: r}
+			}
+			return r
+		}
+		return x
+	case *ast.ParenExpr:
+		return &ast.ParenExpr{X: a.subst(x.X, s, depth+1)}
+	case *ast.UnaryExpr:
+		return &ast.UnaryExpr{Op: x.Op, X: a.subst(x.X, s, depth+1)}
+	case *ast.StarExpr:
+		return &ast.StarExpr{X: a.subst(x.X, s, depth+1)}
+	case *ast.BinaryExpr:
+		return &ast.BinaryExpr{X: a.subst(x.X, s, depth+1), Op: x.Op, Y: a.subst(x.Y, s, depth+1)}
+	case *ast.SelectorExpr:
+		return &ast.SelectorExpr{X: a.subst(x.X, s, depth+1), Sel: x.Sel}
+	case *ast.CallExpr:
+		n := &ast.CallExpr{Fun: x.Fun}
+		if sel, ok := x.Fun.(*ast.SelectorExpr); ok {
+			n.Fun = &ast.SelectorExpr{X: a.subst(sel.X, s, depth+1), Sel: sel.Sel}
+		}
+		for _, arg := range x.Args {
+			n.Args = append(n.Args, a.subst(arg, s, depth+1))
+		}
+		return n
+	}
+	return e
+}
+
+func stripParens(s string) string {
+	// types.ExprString keeps the parentheses introduced by substitution: "(buffer.String()) == ..." -> drop those around atoms
+	for {
+		n := strings.NewReplacer("((", "(", "))", ")").Replace(s)
+		if n == s {
+			break
+		}
+		s = n
+	}
+	return s
+}
+
+// pureExpr: no call with side effects (module callees with an empty effect summary and table-pure externals are fine).
+func (a *smAn) pureExpr(e ast.Expr) bool {
+	pure := true
+	ast.Inspect(e, func(n ast.Node) bool {
+		switch x := n.(type) {
+		case *ast.FuncLit:
+			pure = false
+		case *ast.CallExpr:
+			if tv, ok := a.info.Types[x.Fun]; ok && tv.IsType() {
+				return true
+			}
+			if id, ok := x.Fun.(*ast.Ident); ok {
+				if _, isB := a.info.Uses[id].(*types.Builtin); isB {
+					return true
+				}
+			}
+			callee, _ := typeutil.Callee(a.info, x).(*types.Func)
+			if callee == nil {
+				pure = false
+				return false
+			}
+			if fnv := a.ssaOf(callee); fnv != nil {
+				if sum := a.eff.Sum(fnv); sum != nil {
+					if len(sum.Mut) > 0 {
+						pure = false
+					}
+				} else if ent, ok := a.eff.Ext.lookup(fnv); !ok || len(ent.Mutates) > 0 {
+					pure = false
+				}
+			}
+			// cursor methods that move or set eof are not pure (caught by Mut above)
+		}
+		return pure
+	})
+	return pure
+}
 
 // rootIdent returns the object at the root of a selector chain x.a.b / x.a.b().
 func (a *smAn) rootObj(e ast.Expr) types.Object {
@@ -694,6 +805,28 @@ func (a *smAn) scan(e ast.Node, s *pst) {
 	})
 }
 
+// scanBool scans a right-hand side, honouring short-circuit evaluation: the right operand of && / || is not
+// evaluated (so its dereferences and calls do not happen) when the left operand is decided in this context.
+func (a *smAn) scanBool(e ast.Expr, s *pst) {
+	be, ok := ast.Unparen(e).(*ast.BinaryExpr)
+	if !ok || (be.Op != token.LAND && be.Op != token.LOR) {
+		a.scan(e, s)
+		return
+	}
+	a.scanBool(be.X, s)
+	res := a.evalBool(be.X, s)
+	decided := len(res) > 0
+	for _, r := range res {
+		if r.v != (be.Op == token.LOR) {
+			decided = false
+		}
+	}
+	if decided {
+		return
+	}
+	a.scanBool(be.Y, s)
+}
+
 func (a *smAn) call(call *ast.CallExpr, s *pst) {
 	callee, _ := typeutil.Callee(a.info, call).(*types.Func)
 	text := a.str(call.Fun)
@@ -947,6 +1080,15 @@ func (a *smAn) evalBool(e ast.Expr, s *pst) []vs {
 			return r
 		}
 	case *ast.BinaryExpr:
+		if (x.Op == token.EQL || x.Op == token.NEQ) && a.isBoolExpr(x.X) && a.isBoolExpr(x.Y) {
+			var out []vs
+			for _, l := range a.evalBool(x.X, s) {
+				for _, r := range a.evalBool(x.Y, l.s) {
+					out = append(out, vs{r.s, (l.v == r.v) == (x.Op == token.EQL)})
+				}
+			}
+			return out
+		}
 		switch x.Op {
 		case token.LAND:
 			var out []vs
@@ -971,6 +1113,17 @@ func (a *smAn) evalBool(e ast.Expr, s *pst) []vs {
 		}
 	}
 	return a.atom(e, s)
+}
+
+func (a *smAn) isBoolExpr(e ast.Expr) bool {
+	if tv, ok := a.info.Types[e]; ok && tv.Type != nil {
+		if tv.Value != nil {
+			return false // constants true/false compared: leave to the generic path
+		}
+		b, ok := tv.Type.Underlying().(*types.Basic)
+		return ok && b.Kind() == types.Bool
+	}
+	return false
 }
 
 func (a *smAn) fork(key string, s *pst) []vs {
@@ -1077,7 +1230,7 @@ func (a *smAn) atom(e ast.Expr, s *pst) []vs {
 		}
 		// generic comparison: normalise != to ==
 		a.scan(e, s)
-		key := a.str(be.X) + " == " + a.str(be.Y)
+		key := a.key(be.X, s) + " == " + a.key(be.Y, s)
 		r := a.fork(key, s)
 		if !eq {
 			for i := range r {
@@ -1113,7 +1266,7 @@ func (a *smAn) atom(e ast.Expr, s *pst) []vs {
 				var recvKeys []string
 				if sel != nil {
 					for _, m := range ps.recvAtoms {
-						recvKeys = append(recvKeys, a.str(sel.X)+"."+m+"()")
+						recvKeys = append(recvKeys, a.key(sel.X, s)+"."+m+"()")
 					}
 				}
 				var out []vs
@@ -1135,7 +1288,7 @@ func (a *smAn) atom(e ast.Expr, s *pst) []vs {
 					}
 					if feasible {
 						t.rclass = map[string]bool{ps.runeLit: true}
-						t.path.Assumes = append(t.path.Assumes, a.str(e))
+						t.path.Assumes = append(t.path.Assumes, a.key(e, s))
 						out = append(out, vs{t, true})
 					}
 				}
@@ -1155,7 +1308,7 @@ func (a *smAn) atom(e ast.Expr, s *pst) []vs {
 					delete(f.rclass, ps.runeLit)
 				}
 				if len(f.rclass) > 0 {
-					f.path.Assumes = append(f.path.Assumes, "!("+a.str(e)+")")
+					f.path.Assumes = append(f.path.Assumes, "!("+a.key(e, s)+")")
 					out = append(out, vs{f, false})
 				}
 				return out
@@ -1163,7 +1316,7 @@ func (a *smAn) atom(e ast.Expr, s *pst) []vs {
 		}
 	}
 	a.scan(e, s)
-	return a.fork(a.str(e), s)
+	return a.fork(a.key(e, s), s)
 }
 
 // ---------- statements ----------
@@ -1273,10 +1426,96 @@ func (a *smAn) stmt(st ast.Stmt, s *pst) []*pst {
 		return out
 	case *ast.EmptyStmt:
 		return []*pst{s}
+	case *ast.SwitchStmt:
+		// an expression switch is the if / else-if chain of its cases, in order (default last)
+		cur := []*pst{s.clone()}
+		if x.Init != nil {
+			cur = a.stmt(x.Init, cur[0])
+		}
+		var clauses []*ast.CaseClause
+		var def *ast.CaseClause
+		for _, c0 := range x.Body.List {
+			cc := c0.(*ast.CaseClause)
+			if cc.List == nil {
+				def = cc
+			} else {
+				clauses = append(clauses, cc)
+			}
+		}
+		var out []*pst
+		pending := cur
+		for _, cc := range clauses {
+			// condition: OR over the case expressions (tag == e, or e itself for a tagless switch)
+			var cond ast.Expr
+			for _, e := range cc.List {
+				var one ast.Expr = e
+				if x.Tag != nil {
+					one = &ast.BinaryExpr{X: x.Tag, Op: token.EQL, Y: e}
+					// the synthesised comparison needs type information only for its operands, which exist
+				}
+				if cond == nil {
+					cond = one
+				} else {
+					cond = &ast.BinaryExpr{X: cond, Op: token.LOR, Y: one}
+				}
+			}
+			var next []*pst
+			for _, p0 := range pending {
+				for _, b := range a.evalBool(cond, p0) {
+					if b.v {
+						out = append(out, a.walkCase(cc.Body, b.s)...)
+					} else {
+						next = append(next, b.s)
+					}
+				}
+			}
+			pending = next
+		}
+		for _, p0 := range pending {
+			if def != nil {
+				out = append(out, a.walkCase(def.Body, p0)...)
+			} else {
+				out = append(out, p0)
+			}
+		}
+		return out
+	case *ast.RangeStmt:
+		// like an inner loop: zero or one abstract iteration
+		n := s.clone()
+		a.scan(x.X, n)
+		out := []*pst{n.clone()}
+		for _, b := range a.walk(x.Body.List, []*pst{n.clone()}) {
+			if b.brk == "break" || b.brk == "continue" {
+				b.brk = ""
+			}
+			b.facts = map[string]bool{}
+			out = append(out, b)
+		}
+		return out
+	case *ast.LabeledStmt:
+		n := s.clone()
+		n.path.Undecided = append(n.path.Undecided, "labeled statement in the state machine")
+		return []*pst{n}
 	}
 	n := s.clone()
 	n.path.Undecided = append(n.path.Undecided, fmt.Sprintf("unhandled statement %T at %s", st, a.c.P.Pos(st.Pos())))
 	return []*pst{n}
+}
+
+// walkCase walks the body of a case of an inner switch: `break` leaves the switch, `fallthrough` is not modelled.
+func (a *smAn) walkCase(body []ast.Stmt, s *pst) []*pst {
+	var out []*pst
+	for _, b := range a.walk(body, []*pst{s}) {
+		switch b.brk {
+		case "break":
+			b.brk = ""
+		case "fallthrough":
+			b.brk = ""
+			b.path.Undecided = append(b.path.Undecided, "fallthrough inside a nested switch")
+		}
+		out = append(out, b)
+	}
+	return out
 }
 
 func (a *smAn) ret(x *ast.ReturnStmt, s *pst) {
@@ -1320,7 +1559,7 @@ func (a *smAn) assign(x *ast.AssignStmt, s *pst) {
 	// right-hand sides: calls, derefs
 	for _, r := range x.Rhs {
 		before := len(s.path.Handlers)
-		a.scan(r, s)
+		a.scanBool(r, s)
 		// bind error variables
 		if call, ok := ast.Unparen(r).(*ast.CallExpr); ok && len(x.Rhs) == 1 {
 			callee, _ := typeutil.Callee(a.info, call).(*types.Func)
@@ -1390,12 +1629,14 @@ func (a *smAn) assign(x *ast.AssignStmt, s *pst) {
 			if r != nil && namedOf(o.Type()) == "PercentEncodeSet" {
 				s.setVars[o] = a.resolveSet(r, s)
 			}
-			if r != nil && x.Tok == token.DEFINE && types.Identical(o.Type().Underlying(), types.Typ[types.Bool]) && o != a.ovObj {
-				if _, isCall := ast.Unparen(r).(*ast.CallExpr); !isCall {
+			if r != nil && x.Tok == token.DEFINE && o != a.ovObj && len(x.Lhs) == len(x.Rhs) && a.pureExpr(r) && !a.mentionsCursorState(r) {
+				s.defs[o] = r
+				if types.Identical(o.Type().Underlying(), types.Typ[types.Bool]) {
 					s.boolDefs[o] = r
 				}
 			} else {
 				delete(s.boolDefs, o)
+				delete(s.defs, o)
 			}
 			if r != nil && types.Identical(o.Type(), types.Typ[types.String]) {
 				if call, ok := ast.Unparen(r).(*ast.CallExpr); ok {
@@ -1510,6 +1751,19 @@ func (a *smAn) assign(x *ast.AssignStmt, s *pst) {
 	}
 }
 
+// mentionsCursorState: expressions over the cursor (input.eof, remaining…) change with every cursor move; they are
+// not substituted.
+func (a *smAn) mentionsCursorState(e ast.Expr) bool {
+	found := false
+	ast.Inspect(e, func(n ast.Node) bool {
+		if id, ok := n.(*ast.Ident); ok && a.obj(id) == a.inputObj {
+			found = true
+		}
+		return !found
+	})
+	return found
+}
+
 func (a *smAn) isLoopHead(x *ast.AssignStmt) bool {
 	return len(a.loop.Body.List) > 0 && a.loop.Body.List[0] == ast.Stmt(x)
 }
@@ -1565,7 +1819,7 @@ func (a *smAn) clauseBody(state string) []ast.Stmt {
 }
 
 func (a *smAn) newState(state string) *pst {
-	return &pst{valErr: map[types.Object]types.Object{}, boolDefs: map[types.Object]ast.Expr{}, bufState: map[string]string{}, setVars: map[types.Object]string{}, strVars: map[types.Object]ast.Expr{}, path: smPath{Ctx: a.ctx.Name, State: state}, facts: map[string]bool{}, rclass: a.allClasses(), eofSynced: true,
+	return &pst{defs: map[types.Object]ast.Expr{}, valErr: map[types.Object]types.Object{}, boolDefs: map[types.Object]ast.Expr{}, bufState: map[string]string{}, setVars: map[types.Object]string{}, strVars: map[types.Object]ast.Expr{}, path: smPath{Ctx: a.ctx.Name, State: state}, facts: map[string]bool{}, rclass: a.allClasses(), eofSynced: true,
 		errs: map[types.Object]*errVar{}, nonNil: map[types.Object]bool{}, urlNil: triF}
 }
 
@@ -1676,6 +1930,55 @@ func BuildSM(c *Ctx) *smModel {
 		c.P.Stats["sm_states"] = len(a.clauseOrder)
 		return m
 	}).(*smModel)
+}
+
+// ownerClause: the case clause whose statements run for a state (after following fallthrough).
+func (a *smAn) ownerClause(state string) *ast.CaseClause {
+	cc := a.clauses[state]
+	for cc != nil && len(cc.Body) > 0 {
+		br, ok := cc.Body[len(cc.Body)-1].(*ast.BranchStmt)
+		if !ok || br.Tok != token.FALLTHROUGH {
+			break
+		}
+		var next *ast.CaseClause
+		for i, cs := range a.sw.Body.List {
+			if cs == ast.Stmt(cc) && i+1 < len(a.sw.Body.List) {
+				next = a.sw.Body.List[i+1].(*ast.CaseClause)
+			}
+		}
+		if next == nil {
+			break
+		}
+		cc = next
+	}
+	return cc
+}
+
+// groupOf: the states that run the same clause body ("StateHost+StateHostname"), independent of whether the source
+// writes `case A: fallthrough; case B:` or `case A, B:`.
+func (a *smAn) groupOf(state string) string {
+	own := a.ownerClause(state)
+	var names []string
+	seen := map[string]bool{}
+	for _, n := range a.clauseOrder {
+		if a.ownerClause(n) == own && !seen[n] {
+			seen[n] = true
+			names = append(names, n)
+		}
+	}
+	sort.Strings(names)
+	return strings.Join(names, "+")
+}
+
+// groupAt: the clause group whose statements contain pos.
+func (a *smAn) groupAt(pos token.Pos) string {
+	for _, n := range a.clauseOrder {
+		cc := a.ownerClause(n)
+		if cc != nil && cc.Pos() <= pos && pos < cc.End() {
+			return a.groupOf(n)
+		}
+	}
+	return ""
 }
 
 // clauseOf returns the name of the state clause containing pos ("" if outside the switch).
